@@ -285,7 +285,14 @@ func (r *Run) writeEvidence(nviol, nundec, nknown int) {
 	for _, f := range r.floors {
 		floors = append(floors, map[string]interface{}{"rule": f.rule, "what": f.what, "count": f.count, "floor": f.min})
 	}
+	if r.NotCovered == nil {
+		r.NotCovered = []string{}
+	}
+	if r.Notes == nil {
+		r.Notes = []string{}
+	}
 	cov := map[string]interface{}{
+		"trusted_base": []string{"go/packages + go/types (go1.23.5)", "golang.org/x/tools v0.29.0 (go/cfg, typeutil)", "frozen exception tables in /verif/checker/rules"},
 		"explanation":            r.Explanation,
 		"obligations":            total,
 		"discharged":             total - nviol - nundec - nknown,
